@@ -119,13 +119,25 @@ def port_cases(records, rnd, n):
 
 # ----------------------------------------------------------------------------- running
 
+# An engine leaks ~2 memory mappings per compiled unit (never unmapped); at vm.max_map_count (65530)
+# the process aborts - measured at ~25 000 cases.  No replayer process gets more than BATCH/12 cases.
+BATCH = 96000
+
+
+def replay_batched(cases, work, name):
+    out = []
+    for k in range(0, len(cases), BATCH):
+        out += vlib.replay(cases[k:k + BATCH], work, jobs=12, timeout_ms=10000, name=f"{name}{k // BATCH}")
+    return out
+
+
 def run_engine_data(cases, work, fresh_cap, r):
     """Round 1 on shared engines; round 2: victims of foreign residue (sentinel failed) on fresh ones."""
     run = list(cases)
-    verdicts = vlib.replay(run, work, jobs=12, timeout_ms=10000, name="c12a")
+    verdicts = replay_batched(run, work, "c12a")
     victims = [i for i, (c, v) in enumerate(zip(run, verdicts))
                if not v["pass"] and c["reads"] and v.get("step") == 0 and v["got"]
-               and v["got"][0]["class"] == "ok" and v["got"][0]["emit"][:1] != ["7"]]
+               and v["got"][0]["class"].startswith(("ok", "err")) and v["got"][0]["emit"][:1] != ["7"]]
     if victims:
         vlib.log(f"[c12] {len(victims)} cases met foreign reader residue; re-running them on fresh engines")
         rerun = victims[:fresh_cap]
@@ -154,6 +166,14 @@ def selftest(work, sample_w):
     v = vlib.replay([m2], work, jobs=1, name="c12mut2")[0]
     if v["pass"]:
         raise vlib.ToolError("self-test: a reader result that is not equal? to the datum was not reported")
+    # the spec itself as mutant oracle: with STRICT = TRUE (no named deviation) the written text of #t
+    # is "#t", Steel writes "#true" -> the replayer must report exactly the deviating leaves
+    res = vlib.run_tlc("Datum", "MC_Datum_strict.cfg", work, workers=2, timeout=300)
+    strict, _ = datum_cases(res["cases"])
+    sw = [c for c in strict if c["id"].endswith("-w") and ("(= 0 0)" in c["steps"][0]["src"] or " 255 16)" in c["steps"][0]["src"])]
+    sv = vlib.replay(sw, work, jobs=1, name="c12strict")
+    if len(sw) < 2 or any(v["pass"] for v in sv):
+        raise vlib.ToolError("self-test: the pure-R7RS oracle (#t, #u8(0 255 16)) was not told apart from Steel's output")
     pm = [parse_case("(1 2", "mutant", "accept"), parse_case("(1 2)", "mutant", "reject")]
     pv = vlib.replay(pm, work, jobs=1, name="c12mutp", binary="parsecheck")
     if any(v["pass"] for v in pv):
@@ -171,18 +191,20 @@ def run(tier, seed):
     quick = tier == "quick"
 
     # ---- (a) data
-    cfgs = ["MC_Datum_full.cfg", "MC_Datum_mid.cfg", "MC_Datum_prog.cfg",
-            "MC_Datum_core.cfg" if quick else "MC_Datum_core5.cfg"]
+    cfgs = (["MC_Datum_full.cfg", "MC_Datum_midq.cfg", "MC_Datum_prog.cfg", "MC_Datum_coreq.cfg"] if quick else
+            ["MC_Datum_full.cfg", "MC_Datum_mid.cfg", "MC_Datum_prog.cfg", "MC_Datum_core.cfg", "MC_Datum_coreq5.cfg"])
     records = []
     for cfg in cfgs:
         res = vlib.run_tlc("Datum", cfg, work, workers=8, timeout=900)
         r.add_tlc(res)
+        for c in res["cases"]:
+            c["cfg"] = cfg
         records += res["cases"]
     # budget: data with two or more quotation forms (every such text panics the parser, and a panic
     # costs the replayer a new engine) and, in the thorough tier, the 5-node data are SAMPLED (seeded)
     nq = [c["ctor"] for c in records if c.get("kind") == "datum" and c["qn"] >= 2]
     n5 = [c["ctor"] for c in records if c.get("kind") == "datum" and c["nodes"] >= 5 and c["qn"] < 2]
-    kept = set(rnd.sample(sorted(set(nq)), min(len(set(nq)), 120 if quick else 1500)))
+    kept = set(rnd.sample(sorted(set(nq)), min(len(set(nq)), 120 if quick else 800)))
     kept |= set(rnd.sample(sorted(set(n5)), min(len(set(n5)), 30000)))
     dropped = len(set(nq) | set(n5)) - len(kept)
     if dropped:
@@ -199,7 +221,7 @@ def run(tier, seed):
     strings = {text_of(c["text"]) for c in res["cases"] if c.get("kind") == "text"}
     exhaustive_n = len(strings)
     sim = vlib.run_tlc("Datum", "MC_Datum_strsim.cfg", work, workers=1, timeout=600,
-                       simulate=f"num={150 if quick else 2500}", seed=seed, extra_java=None)
+                       simulate=f"num={60 if quick else 2500}", seed=seed, extra_java=None)
     strings |= {text_of(c["text"]) for c in sim["cases"] if c.get("kind") == "text"}
     if not quick:
         sim2 = vlib.run_tlc("Datum", "MC_Datum_strsimbig.cfg", work, workers=1, timeout=600,
@@ -221,8 +243,11 @@ def run(tier, seed):
 
     # ---- (c) engine level: compile+run never panics / aborts / hangs
     # (the Strings texts and, as program text, every text the spec produced for a datum)
-    ecases = [engine_text_case(t) for t in strings + sorted(set(texts) - set(strings)) if "@@" not in t]
-    everd = vlib.replay(ecases, work, jobs=12, timeout_ms=10000, name="c12e")
+    # (quick: without the texts of the deepest data configuration)
+    deep = {text_of(c[f]) for c in records if c.get("kind") == "datum" and "core" in c["cfg"] and quick
+            for f in ("ext", "alt1", "alt2")}
+    ecases = [engine_text_case(t) for t in strings + sorted(set(texts) - set(strings) - deep) if "@@" not in t]
+    everd = replay_batched(ecases, work, "c12e")
     r.add_cases(ecases, everd, nontrivial=lambda c: len(c["steps"][0]["src"]) > 0)
 
     # ---- (c) runtime reader on short texts, one engine each
@@ -236,7 +261,8 @@ def run(tier, seed):
     r.cov["rule"] = ("data cases: every datum Datum.tla builds within the node bound, one case per observation "
                      "(all compare at least one emitted value with the spec's); text cases: every non-empty text of "
                      "the Strings generator; non-trivial = distinct step sources among these")
-    r.cov["exhaustive"] = True
+    # TLC's enumeration is exhaustive within the bounds; the replay drops the sampled-out data
+    r.cov["exhaustive"] = dropped == 0
     r.assumptions.append("texts containing '@@' are not sent to the engine (the replayer rewrites @@); parsecheck covers them")
     return r.finish()
 
